@@ -474,6 +474,7 @@ type Clause struct {
 	E     *Expr
 	Mods  []*Expr // modifies lvalues
 	Names []string // restores: ghost field names
+	Free  bool     // free ensures: assumed at call sites, no obligation in the function
 	Pos   string
 	Src   string
 }
@@ -702,7 +703,7 @@ func (ss *SpecSet) loadFile(path string) error {
 	var cur *Contract
 	for _, lp := range lines {
 		line, pos := lp[0], lp[1]
-		for _, kw := range []string{"requires", "ensures", "modifies", "decreases", "axiom", "restores"} {
+		for _, kw := range []string{"requires", "ensures", "free_ensures", "modifies", "decreases", "axiom", "restores"} {
 			if strings.HasPrefix(line, kw+"[") {
 				line = kw + " " + line[len(kw):]
 			}
@@ -853,7 +854,7 @@ func (ss *SpecSet) loadFile(path string) error {
 				return fmt.Errorf("%s: clause outside contract", pos)
 			}
 			cur.Pure = true
-		case "requires", "ensures", "decreases":
+		case "requires", "ensures", "decreases", "free_ensures":
 			if cur == nil {
 				return fmt.Errorf("%s: clause outside contract", pos)
 			}
@@ -862,7 +863,12 @@ func (ss *SpecSet) loadFile(path string) error {
 			if err != nil {
 				return err
 			}
-			cur.Clauses = append(cur.Clauses, &Clause{Kind: f[0], Tag: tag, Props: props, E: e, Pos: pos, Src: r})
+			kind, free := f[0], false
+			if kind == "free_ensures" {
+				// assumed by callers, not checked in the function itself (listed as an assumption)
+				kind, free = "ensures", true
+			}
+			cur.Clauses = append(cur.Clauses, &Clause{Kind: kind, Tag: tag, Props: props, E: e, Pos: pos, Src: r, Free: free})
 		case "restores":
 			// restores GHOSTFIELD, ... : on return these whole heaps equal their entry value
 			if cur == nil {
